@@ -9,6 +9,10 @@ Sub-monitors (each has its own counters; a deciding one that saw nothing makes t
         computed by an independent evaluation of the tree (vf/ref/defs.py + names.py)
   txt   the printed text of a unit, read by the independent evaluator vf/ref/uexpr.py, denotes the unit's scale/dimension
   per   persistence routes that store str(units): pickle, savetxt/loadtxt, unyt_array(..., registry=), deepcopy
+  nf    powers whose exponent is nearly but not exactly a simple fraction (decimal floats with 6-12 digits, narrow NumPy scalars, Fractions with
+        huge denominators, Decimals, strings, sympy numbers; vf/gen/c20_nearfrac.py) of units whose scale is not 1: the exponent the result prints
+        and the scale/dimension it carries must be the same power of the base (no parser involved), then rr/txt/per on the result and on the
+        results of further arithmetic on it
 """
 import math, os, re, io, pickle, copy, tempfile
 from fractions import Fraction as Fr
@@ -22,7 +26,8 @@ RULE = ("one evaluation = one judged observation of the string interface: (tot) 
         "(sbx) audit events and callables invoked while one string is parsed; (rr) one reparse of str(u) or repr(u) compared with u "
         "(dimension vector, offset, scale, and expression+hash when u has no numeric coefficient); (sp) one alternative spelling "
         "compared with the canonical spelling of the same tree; (gr) one grammar-valid compound compared with an independent "
-        "evaluation of its tree; (txt) one printed unit read by the independent evaluator; (per) one persistence route. "
+        "evaluation of its tree; (txt) one printed unit read by the independent evaluator; (per) one persistence route; (nf) one power "
+        "base**p with p nearly a simple fraction: scale and dimension of the result against the base's to the exponent the result prints. "
         "distinct = (sub-monitor, structural class of the string or unit, entry point / spelling dimension / route, outcome class) "
         "- structural classes are tree shapes, unit-expression classes, hostile-template families and mutation categories, never values")
 ASSUMPTIONS = (
@@ -62,6 +67,16 @@ ASSUMPTIONS = (
     "x**p is evaluated as exp(p ln x) in double precision by both the library and the reference readers: tolerances carry a term |ln scale| ulps, and for units "
     "built by arithmetic a budget of roundings accumulated along the recorded history",
     "symbols with a listed C02 value finding (Tsun, Mearth, ly, mp) are excluded from value comparisons against the reference table",
+    "near-fraction exponents (nf): which rational the library turns an exponent into (str() then limit_denominator: 0.3333333 -> 1/3, np.float16(0.1) -> 1/10) "
+    "is not C20's subject and is only noted; judged is that ONE exponent governs what is printed, the dimension and the scale: ln(scale(result)) = e * ln(scale(base)) "
+    "for the exponent e read off the result's expression, within (32 + 8|e ln s| + 8|ln s|max(1,|e|)) eps; bases are coefficient-free units built from strings "
+    "whose scale is positive and not 1 and that have no offset and are not logarithmic (those refuse powers)",
+    "mechanism class simplify-of-exponent-denominator>1e6 overrides the structural class in keys for units with a simplify() of an expression carrying an exponent "
+    "whose denominator exceeds 10**6 in their history (simplify() rebuilds factors through Unit.__pow__, which moves such exponents; array multiplication and division call simplify() on the result unit)",
+    "nf tolerances: the rounding budget of a power and of every further step carries 2 * sum over the symbols of |exponent * ln scale| ulps (factor-by-factor exp(p ln x)), "
+    "not only |ln| of the total scale: a compound whose scale is near 1 still carries the roundings of its large factors",
+    "nf: exponent types NumPy's power does not take for arrays (str, Decimal, Fraction, sympy numbers) are driven through Unit.__pow__ only; a power the library "
+    "refuses is noted (nf:power-refused:<form>:<kind>:<exception>), not judged - refusing an exponent type is not a string-interface matter",
 )
 MIN_EVALS = 100000
 TIMEOUT = 1500
@@ -70,9 +85,9 @@ EPS = 2.220446049250313e-16
 ENTRY_POINTS = ["Unit(str,registry=)", "Unit(bytes)", "unyt_array(list,str)", "unyt_quantity(float,str)", "q.to(str)", "q.in_units(str)",
                 "q.convert_to_units(str)", "q.to_value(str)", "unyt_quantity.from_string", "loadtxt-header", "q.to_equivalent(str,'spectral')"]
 PERSIST_ROUTES = ["pickle", "savetxt/loadtxt", "unyt_array(data,Unit,registry=)", "unyt_array(unyt_array,registry=)", "deepcopy(array)", "Unit.copy"]
-ARITH_OPS = ["mul", "rmul", "div", "rdiv", "pow-int", "pow-fraction", "pow-float", "pow-numpy", "pow-string", "simplify", "base-equivalent", "cgs-equivalent", "mks-equivalent",
+ARITH_OPS = ["mul", "rmul", "div", "rdiv", "pow-int", "pow-fraction", "pow-float", "pow-numpy", "pow-string", "pow-near-fraction", "simplify", "base-equivalent", "cgs-equivalent", "mks-equivalent",
              "system-equivalent", "as_coeff_unit", "quantity-mul", "quantity-sqrt", "quantity-pow", "in_base", "in_cgs", "Unit(quantity)", "rtruediv"]
-SUBMON = ["tot", "sbx", "rr.str", "rr.repr", "sp", "gr", "txt", "per"]
+SUBMON = ["tot", "sbx", "rr.str", "rr.repr", "sp", "gr", "txt", "per", "nf", "nf.followup"]
 
 
 # ------------------------------------------------------------------------------------------------ context
@@ -408,7 +423,7 @@ def range_risky(c, u):
 
 
 # ------------------------------------------------------------------------------------------------ comparison of a re-read unit with the original
-def compare_units(c, rec, u, v, prefix, ucls, free, nfac, has_float, same_registry, case, budget=0.0, quiet=False, mech=None):
+def compare_units(c, rec, u, v, prefix, ucls, free, nfac, has_float, same_registry, case, budget=0.0, quiet=False, mech=None, sfx=""):
     """-> True when v denotes u.  prefix e.g. 'C20:reread:str' ; keys prefix:<failure>:<ucls>"""
     sp = c.sympy
     ok = True
@@ -425,7 +440,7 @@ def compare_units(c, rec, u, v, prefix, ucls, free, nfac, has_float, same_regist
                 k = "offset-symbol-after-" + (mech or "unknown-operation")
             elif kind == "offset-lost" and isinstance(u.expr, c.sympy.Symbol) and not is_offset_symbol(c, u):
                 k = "offsetless-symbol-carrying-offset"     # e.g. 'degree' with lat's zero point after a product was simplified
-            rec.violation(f"{prefix}:{kind}:{k}", msg, case)
+            rec.violation(f"{prefix}:{kind}:{_k(k, sfx)}", msg, case)
     du, dv = udims(u), udims(v)
     if du is None or dv is None:
         rec.note("dimension-vector-unreadable")
@@ -463,17 +478,44 @@ def compare_units(c, rec, u, v, prefix, ucls, free, nfac, has_float, same_regist
     return ok
 
 
+def _k(ucls, sfx):
+    """unit class as it appears in keys and cells: '!mechanism' replaces the structural class, '/qualifier' is appended"""
+    return sfx[1:] if sfx.startswith("!") else ucls + sfx
+
+
+BEYOND = "simplify-of-exponent-denominator>1e6"
+
+
+def beyond_limit(c, u):
+    """does the expression carry an exponent that Unit.__pow__ cannot reproduce (denominator above limit_denominator's 10**6)?  Such exponents arise
+    from products of exponents ((x**a)**b) and sums (x**a * x**b)"""
+    try:
+        return any(getattr(e, "q", 1) > 10 ** 6 for e in u.expr.as_powers_dict().values())
+    except Exception:
+        return False
+
+
+def _sfx(ucls, tag):
+    """history qualifier of a key: only for the structural unit classes; mechanism classes (one, huge-integer, offset-compound ...) name their mechanism already"""
+    if tag and tag.startswith("!"):
+        return tag if (ucls.split("+")[0] in ("atom", "pow", "pow-frac", "mul", "mul-frac") or ucls.startswith("coeff")) else ""
+    if tag and (ucls.split("+")[0] in ("atom", "pow", "pow-frac", "mul", "mul-frac") or ucls.startswith("coeff")):
+        return "/" + tag
+    return ""
+
+
 INTERNAL_CTOR = re.compile(r"\b(Symbol|Integer|Float|Rational)\s*\(")
 
 
-def reread(c, rec, u, origin, reg=None, budget=0.0, mech=None):
-    """rr sub-monitor on one unit; -> True when both printed forms read back as u"""
+def reread(c, rec, u, origin, reg=None, budget=0.0, mech=None, tag=None):
+    """rr sub-monitor on one unit; -> True when both printed forms read back as u.  tag: mechanism qualifier appended to the unit class in keys/cells"""
     try:
         ucls, free, nfac, has_float = expr_info(c, u)
     except Exception as e:
         rec.note("expr-info-failed:" + type(e).__name__)
         return False
-    if isinstance(origin, str) and INTERNAL_CTOR.search(origin) and ucls not in ("huge-integer", "pow-nonreal-exponent", "offset-compound"):
+    sfx = _sfx(ucls, tag)
+    if isinstance(origin, str) and not origin.startswith(("nearfrac:", "arith:")) and INTERNAL_CTOR.search(origin) and ucls not in ("huge-integer", "pow-nonreal-exponent", "offset-compound"):
         ucls = "internal-constructor-text"     # the string called the parser's internal constructors itself (Symbol('m') has no positive assumption ...)
     allok = True
     if ucls.startswith("pure-number") or "degenerate-scale" in ucls or ucls == "huge-integer":
@@ -482,7 +524,7 @@ def reread(c, rec, u, origin, reg=None, budget=0.0, mech=None):
         try:
             text = f(u)
         except Exception as e:
-            rec.violation(f"C20:reread:{how}:print-raises:{type(e).__name__}:{ucls}", f"{how}() of a unit built from {origin!r} raised {type(e).__name__}: {str(e)[:120]}",
+            rec.violation(f"C20:reread:{how}:print-raises:{type(e).__name__}:{_k(ucls, sfx)}", f"{how}() of a unit built from {origin!r} raised {type(e).__name__}: {str(e)[:120]}",
                           {"origin": origin})
             rec.count("rr." + how)
             allok = False
@@ -503,10 +545,10 @@ def reread(c, rec, u, origin, reg=None, budget=0.0, mech=None):
             if out.startswith("other:") and ucls != "negative-scale-root":
                 rec.note("rr:reparse-escaped-with-another-exception(reported-by-tot)")
                 continue
-            rec.violation(f"C20:reread:{how}:unparseable:{ucls}", f"{how}() of the unit built from {origin!r} is {text[:100]!r}, which does not parse ({out})", case)
+            rec.violation(f"C20:reread:{how}:unparseable:{_k(ucls, sfx)}", f"{how}() of the unit built from {origin!r} is {text[:100]!r}, which does not parse ({out})", case)
             continue
-        if compare_units(c, rec, u, v, f"C20:reread:{how}", ucls, free, nfac, has_float, True, case, budget, mech=mech):
-            rec.ok(("rr", how, ucls, origin.split(":")[0] if isinstance(origin, str) else "unit"))
+        if compare_units(c, rec, u, v, f"C20:reread:{how}", ucls, free, nfac, has_float, True, case, budget, mech=mech, sfx=sfx):
+            rec.ok(("rr", how, _k(ucls, sfx), origin.split(":")[0] if isinstance(origin, str) else "unit"))
         else:
             allok = False
     return allok
@@ -575,8 +617,9 @@ def tree_eval(c, t, extra=None):
     raise ValueError(k)
 
 
-def printed_text_check(c, rec, u, ucls, extra, origin, budget=0.0):
+def printed_text_check(c, rec, u, ucls, extra, origin, budget=0.0, tag=None):
     """txt: read str(u) with the independent evaluator and compare with the unit that printed it"""
+    kcls = _k(ucls, _sfx(ucls, tag))
     try:
         text = str(u)
     except Exception:
@@ -597,7 +640,7 @@ def printed_text_check(c, rec, u, ucls, extra, origin, budget=0.0):
         return
     case = {"origin": origin, "text": text[:300]}
     if du != dv:
-        rec.violation(f"C20:printed-text:dimension-differs:{ucls}", f"{text[:100]!r} reads as {dims.show(dv)} but the unit that printed it has {dims.show(du)}", case)
+        rec.violation(f"C20:printed-text:dimension-differs:{kcls}", f"{text[:100]!r} reads as {dims.show(dv)} but the unit that printed it has {dims.show(du)}", case)
         return
     syms = [s.name for s in u.expr.free_symbols]
     tol = 16 * EPS
@@ -624,19 +667,19 @@ def printed_text_check(c, rec, u, ucls, extra, origin, budget=0.0):
         tol += 4 * EPS * abs(math.log(abs(bu)))      # both readers evaluate powers as exp(p ln x)
     if tainted:
         rec.note("txt:tainted-symbol-value-not-compared")
-        rec.ok(("txt", ucls, "dimension-only"))
+        rec.ok(("txt", kcls, "dimension-only"))
         return
     if not math.isfinite(bu) or not math.isfinite(scale) or bu == 0.0 or scale == 0.0 or range_risky(c, u):
         rec.count("discarded:scale-out-of-float-range")
         return
     if abs(bu - scale) > tol * max(abs(bu), abs(scale)):
-        rec.violation(f"C20:printed-text:scale-differs:{ucls}", f"{text[:100]!r} reads as scale {scale!r} but the unit that printed it has {bu!r} (tolerance {tol:.2g})", case)
+        rec.violation(f"C20:printed-text:scale-differs:{kcls}", f"{text[:100]!r} reads as scale {scale!r} but the unit that printed it has {bu!r} (tolerance {tol:.2g})", case)
         return
-    rec.ok(("txt", ucls, "scale+dimension"))
+    rec.ok(("txt", kcls, "scale+dimension"))
 
 
 # ------------------------------------------------------------------------------------------------ persistence routes
-def persist(c, rec, u, origin, routes, budget=0.0):
+def persist(c, rec, u, origin, routes, budget=0.0, tag=None):
     """per: the routes store str(units) and parse it back.  A unit whose plain str->parse round trip already fails is rr's
     finding and is not reported again per route; the routes are judged for what they add (own registry, header splitting ...)"""
     unyt, np = c.unyt, c.np
@@ -646,7 +689,7 @@ def persist(c, rec, u, origin, routes, budget=0.0):
         return
     if "degenerate-scale" in ucls or ucls == "huge-integer":
         return
-    if isinstance(origin, str) and INTERNAL_CTOR.search(origin):
+    if isinstance(origin, str) and not origin.startswith(("nearfrac:", "arith:")) and INTERNAL_CTOR.search(origin):
         ucls = "internal-constructor-text"
     try:
         w = c.Unit(str(u), registry=u.registry)
@@ -697,8 +740,8 @@ def persist(c, rec, u, origin, routes, budget=0.0):
             continue
         rec.count("per")
         rec.count("per.route:" + route)
-        if compare_units(c, rec, u, v, f"C20:persist:{route}", ucls, free, nfac, has_float, False, case, budget):
-            rec.ok(("per", route, ucls))
+        if compare_units(c, rec, u, v, f"C20:persist:{route}", ucls, free, nfac, has_float, False, case, budget, sfx=_sfx(ucls, tag)):
+            rec.ok(("per", route, _k(ucls, _sfx(ucls, tag))))
 
 
 # ------------------------------------------------------------------------------------------------ workers
@@ -906,7 +949,8 @@ def do_grammar(c, rec, payload):
 
 POWS = [("pow-int", [2, 3, -1, -2, 4, -3, 1, 0, 5]), ("pow-fraction", [Fr(1, 2), Fr(3, 2), Fr(-1, 2), Fr(1, 3), Fr(2, 3), Fr(-5, 4), Fr(7, 3), Fr(1, 7)]),
         ("pow-float", [0.5, 1.5, -0.5, 0.3333, 1.0 / 3.0, 2.0, 0.1, 0.75, -1.5, 2.0 / 3.0, 0.2, 1e-3, 0.30000000000000004]),
-        ("pow-numpy", ["np.float64(0.5)", "np.int64(2)", "np.float32(1.5)", "np.int8(-1)", "np.float64(1/3)"]), ("pow-string", ["2/3", "0.25", "-3/2"])]
+        ("pow-numpy", ["np.float64(0.5)", "np.int64(2)", "np.float32(1.5)", "np.int8(-1)", "np.float64(1/3)"]), ("pow-string", ["2/3", "0.25", "-3/2"]),
+        ("pow-near-fraction", None)]      # exponents nearly but not exactly simple fractions, every caller form (vf/gen/c20_nearfrac.py)
 
 
 def is_offset_symbol(c, u):
@@ -945,6 +989,7 @@ def gen_arith(c, rec, r, atoms, U, reg):
     desc = [d0]
     budget = 0.0       # roundings accumulated in base_value by the arithmetic history (ulps), used for 'same scale up to rounding'
     mech = None        # first operation after which the unit is the bare symbol of an offset unit without its zero point
+    beyond = False     # simplify() was applied to an expression with an exponent denominator > 10**6 somewhere in the history
     keys = {}
     for _ in range(r.randint(1, 5)):
         k = r.random()
@@ -963,11 +1008,20 @@ def gen_arith(c, rec, r, atoms, U, reg):
                 w, dw = partner(c, r, atoms, U, reg); u = w / u; op = "rdiv"; desc.insert(0, dw + "/("); desc.append(")"); budget = b0 + 1
             elif k < 0.70:
                 op, vals = r.choice(POWS)
-                p = r.choice(vals)
-                pv = eval(p, {"np": np}) if op == "pow-numpy" else p
-                u = u ** pv; desc.append("**(" + str(p) + ")"); budget = b0 * abs(float(Fr(str(p))) if op == "pow-string" else float(pv)) + 4 + _lnb(u)
+                if op == "pow-near-fraction":
+                    from vf.gen import c20_nearfrac as NFG
+                    nk, pv, p, near = NFG.gen_exponent(r, np, c.sympy)
+                    u = u ** pv; desc.append("**(" + p + ")"); budget = b0 * abs(float(near)) * 1.01 + 4 + _lnb(u)
+                    rec.count("arith.pow-near-fraction")
+                else:
+                    p = r.choice(vals)
+                    pv = eval(p, {"np": np}) if op == "pow-numpy" else p
+                    u = u ** pv; desc.append("**(" + str(p) + ")"); budget = b0 * abs(float(Fr(str(p))) if op == "pow-string" else float(pv)) + 4 + _lnb(u)
             elif k < 0.75:
                 v = fresh_copy(c, u)
+                if beyond_limit(c, v):
+                    beyond = True
+                    rec.count("simplify-of-exponent-denominator>1e6")
                 if r.random() < 0.6:
                     keys[v] = 2      # hashed while un-simplified; simplify() rewrites the expression in place
                     rec.count("arith.hashed-before-simplify")
@@ -984,7 +1038,10 @@ def gen_arith(c, rec, r, atoms, U, reg):
             elif k < 0.90:
                 u = u.as_coeff_unit()[1]; op = "as_coeff_unit"; desc.append(".as_coeff_unit()[1]")
             elif k < 0.93:
-                w = U(r.choice(atoms)); u = ((2.5 * u) * (4 * w)).units; op = "quantity-mul"; desc.append(" q*" + str(w)); budget = b0 + 2
+                w = U(r.choice(atoms))
+                if beyond_limit(c, u):
+                    beyond = True; rec.count("simplify-of-exponent-denominator>1e6")       # array multiplication/division simplify the unit
+                u = ((2.5 * u) * (4 * w)).units; op = "quantity-mul"; desc.append(" q*" + str(w)); budget = b0 + 2
             elif k < 0.95:
                 u = np.sqrt(3.0 * u).units; op = "quantity-sqrt"; desc.append(" np.sqrt(q)"); budget = b0 / 2 + 4 + _lnb(u)
             elif k < 0.96:
@@ -997,6 +1054,8 @@ def gen_arith(c, rec, r, atoms, U, reg):
                 f = r.choice([2.5, 3, 1000.0, 0.1, 1e-7, 12])
                 u = c.Unit(f * u, registry=reg) if reg is not None else c.Unit(f * u); op = "Unit(quantity)"; desc.append(f" Unit({f}*u)")
             else:
+                if beyond_limit(c, u):
+                    beyond = True; rec.count("simplify-of-exponent-denominator>1e6")
                 u = (1 / u).units; op = "rtruediv"; desc.append(" 1/u"); budget = b0 + 2
             rec.reach("arith:" + op)
             if mech is None and u.base_offset == 0.0 and is_offset_symbol(c, u):
@@ -1005,7 +1064,7 @@ def gen_arith(c, rec, r, atoms, U, reg):
             raise
         except Exception as e:
             rec.note("arith-step-refused:" + type(e).__name__)
-    return u, "".join(desc)[:200], budget + 4 * len(desc), mech
+    return u, "".join(desc)[:200], budget + 4 * len(desc), mech, beyond
 
 
 Hangish = sbx.Hang
@@ -1017,6 +1076,22 @@ def _lnb(u):
         return 2 * abs(math.log(b)) if b and math.isfinite(b) else 0.0
     except Exception:
         return 0.0
+
+
+def _lnsum(c, u):
+    """sum over the symbols of |exponent * ln scale|: the size (in ulps) of the rounding of a scale computed factor by factor as exp(p ln x) -
+    a compound whose scale is near 1 (ZWb**(18/7)*nC**(54/7)/uK**(18/7)) still carries the roundings of its large factors.  Tolerance sizing only"""
+    tot = 0.0
+    try:
+        lut = u.registry.lut
+        for b, e in u.expr.as_powers_dict().items():
+            if isinstance(b, c.sympy.Symbol):
+                sc = abs(float(lut[b.name][0]))
+                if sc and math.isfinite(sc):
+                    tot += abs(float(e) * math.log(sc))
+    except Exception:
+        return _lnb(u)
+    return tot
 
 
 def do_arith(c, rec, payload):
@@ -1041,18 +1116,235 @@ def do_arith(c, rec, payload):
         if o.outcome != "ok":
             rec.note("arith-generation-" + o.outcome)
             continue
-        u, desc, budget, mech = o.value
+        u, desc, budget, mech, beyond = o.value
+        tag = ("!" + BEYOND) if beyond else None
         rec.count("arith-units")
-        reread(c, rec, u, "arith:" + desc, budget=budget, mech=mech)
+        reread(c, rec, u, "arith:" + desc, budget=budget, mech=mech, tag=tag)
         try:
             ucls = expr_info(c, u)[0]
         except Exception:
             continue
-        printed_text_check(c, rec, u, ucls, extra, "arith:" + desc, budget)
+        printed_text_check(c, rec, u, ucls, extra, "arith:" + desc, budget, tag=tag)
         if i % 2 == 0:
-            persist(c, rec, u, "arith:" + desc, [PERSIST_ROUTES[(i // 2 + j) % len(PERSIST_ROUTES)] for j in range(2)], budget)
+            persist(c, rec, u, "arith:" + desc, [PERSIST_ROUTES[(i // 2 + j) % len(PERSIST_ROUTES)] for j in range(2)], budget, tag=tag)
         last = desc
     rec.sample({"arith_example": last, "pool": pool_kind})
+
+
+# ------------------------------------------------------------------------------------------------ nf: powers with nearly-simple-fraction exponents
+NF_FORMS = ["unit-pow", "unit-pow-pow", "quantity-pow", "np.power(quantity)"]
+NF_FOLLOW = ["mul-atom", "div-atom", "pow-int", "pow-inverse", "sqrt", "square-self", "reciprocal", "simplify", "div-base", "base-equivalent", "quantity-mul", "np.sqrt(quantity)"]
+
+
+def _sym_powers(c, u):
+    """{symbol name: Fraction exponent} of a coefficient-free unit expression, or None"""
+    sp = c.sympy
+    out = {}
+    for b, e in u.expr.as_powers_dict().items():
+        if isinstance(b, sp.Symbol) and e.is_Rational:
+            out[b.name] = Fr(int(e.p), int(e.q))
+        elif b == 1:
+            continue
+        else:
+            return None
+    return out
+
+
+def power_consistency(c, rec, a, u, form, kind, case):
+    """nf oracle that involves no parser: u was produced as a power of a.  The exponent the expression of u shows (every symbol of a carries
+    the same multiple e of its exponent in a) is the exponent u prints; the dimension vector and the scale u carries must be those of a to
+    that same e, or the printed form and the scale denote different units.  -> e or None"""
+    pa, pu = _sym_powers(c, a), _sym_powers(c, u)
+    if not pa or pu is None:
+        rec.note("nf:base-or-result-not-coefficient-free")
+        return None
+    ratios = {pu.get(s, Fr(0)) / ea for s, ea in pa.items()}
+    key = f"C20:near-fraction-power:{form}"
+    if len(ratios) != 1 or set(pu) - set(pa):
+        rec.violation(f"{key}:expression-is-not-one-power-of-the-base:{kind}", f"{case['origin']}: expression {u.expr} is not a single power of {a.expr}", case)
+        return None
+    e = ratios.pop()
+    da, du = udims(a), udims(u)
+    if da is None or du is None:
+        rec.note("dimension-vector-unreadable")
+    elif dims.power(da, e) != du:
+        rec.violation(f"{key}:dimension-is-not-base-dimension-to-the-printed-exponent:{kind}",
+                      f"{case['origin']}: prints {str(u)!r} (exponent {e}) but has dimensions {dims.show(du)}; the base has {dims.show(da)}", case)
+        return e
+    ba, bu = float(a.base_value), float(u.base_value)
+    if not (ba > 0 and bu > 0 and math.isfinite(ba) and math.isfinite(bu)) or range_risky(c, u) or range_risky(c, a):
+        rec.count("discarded:scale-out-of-float-range")
+        return e
+    la, lu = math.log(ba), math.log(bu)
+    want = float(e) * la
+    tol = EPS * (32 + 8 * abs(want) + 8 * abs(la) * max(1.0, abs(float(e))))     # x**p = exp(p ln x) in 53 bits on both sides, roundings of a's own scale included
+    if abs(lu - want) > tol:
+        rec.violation(f"{key}:scale-is-not-base-scale-to-the-printed-exponent:{kind}",
+                      f"{case['origin']}: prints {str(u)!r} (exponent {e}) but carries scale {bu!r}; base scale {ba!r} to that exponent is {math.exp(want)!r} "
+                      f"(ln differs by {abs(lu - want):.3g}, tolerance {tol:.2g})", case)
+        return e
+    rec.ok(("nf", form, kind, "snapped" if e.denominator <= 13 else "kept"))
+    return e
+
+
+def nf_follow(c, rec, r, a, u, e, atoms, U, reg, budget):
+    """one further arithmetic step on the result of a near-fraction power -> (unit, name, budget) or None"""
+    np = c.np
+    name = r.choice(NF_FOLLOW)
+    try:
+        if name == "mul-atom":
+            w = u * U(r.choice(atoms)); b = budget + 1
+        elif name == "div-atom":
+            w = u / U(r.choice(atoms)); b = budget + 1
+        elif name == "pow-int":
+            q = r.choice([2, 3, -1, -2]); w = u ** q; b = budget * abs(q) + 4 + _lnb(w)
+        elif name == "pow-inverse":
+            if not e:
+                return None
+            q = 1 / Fr(e); w = u ** q; b = budget * abs(float(q)) + 4 + _lnb(w)      # back to the base's expression
+        elif name == "sqrt":
+            w = u ** 0.5; b = budget / 2 + 4 + _lnb(w)
+        elif name == "square-self":
+            w = u * u; b = 2 * budget + 1
+        elif name == "reciprocal":
+            if beyond_limit(c, u):
+                name = "reciprocal>1e6"          # array division simplifies the unit
+            w = (1 / u).units; b = budget + 2
+        elif name == "simplify":
+            w = fresh_copy(c, u * a)
+            if beyond_limit(c, w):
+                name = "simplify>1e6"
+            w = w.simplify(); b = budget + 9
+        elif name == "div-base":
+            w = u / a; b = budget + 1
+        elif name == "base-equivalent":
+            w = u.get_base_equivalent(); b = budget
+        elif name == "quantity-mul":
+            if beyond_limit(c, u):
+                name = "quantity-mul>1e6"        # array multiplication simplifies the unit
+            w = ((2.5 * u) * (4 * U(r.choice(atoms)))).units; b = budget + 2
+        else:
+            w = np.sqrt(3.0 * u).units; b = budget / 2 + 4 + _lnb(w)
+    except Hangish:
+        raise
+    except Exception as ex:
+        rec.note("nf:follow-up-refused:" + name + ":" + type(ex).__name__)
+        return None
+    rec.reach("nf-follow:" + name.split(">")[0])
+    return w, name, b
+
+
+def do_nearfrac(c, rec, payload):
+    from vf.gen import c20_nearfrac as NFG
+    seed, idx, n, pool_kind = payload
+    r = core.rng(seed, "nearfrac", idx)
+    np = c.np
+    reg, extra = (c.custom if pool_kind == "custom" else (None, None))
+    U = (lambda s: c.Unit(s, registry=reg)) if reg is not None else c.Unit
+    if pool_kind == "custom":
+        cand = ["code_length", "code_mass", "code_time", "kcode_time", "code_velocity", "foo", "smoot", "ksmoot", "msmoot", "lambda", "ħ", "e3"] + NFG.FIXED_ATOMS[:12]
+    elif pool_kind == "fixed":
+        cand = list(NFG.FIXED_ATOMS)
+    else:
+        cand = r.sample(c.canon_names, min(60, len(c.canon_names))) + r.sample(c.all_names, min(240, len(c.all_names)))      # prefixed names included
+        cand = [x for x in cand if x.isidentifier()]
+    atoms = []
+    for nm in name_pool(c, rec, cand, reg):
+        lr = leaf_ref(c, nm, extra)
+        if lr is None or not (lr[0] > 0) or abs(math.log10(lr[0])) < 1e-3:
+            continue          # scale 1 hides a wrong exponent on the scale; lat has a negative scale
+        try:
+            t = U(nm)
+            if t.base_offset != 0.0 or t.dimensions is c.unyt.dimensions.logarithmic or t.is_dimensionless:
+                continue
+        except Exception:
+            continue
+        atoms.append(nm)
+    if not atoms:
+        return
+    compounds = list(NFG.FIXED_COMPOUNDS) if reg is None else ["code_length/code_time", "code_mass/code_length**3", "smoot*km/code_time**2"]
+    last = None
+    for i in range(n):
+        # ---- the base: an atom, a fixed compound, or a random compound of atoms
+        k = r.random()
+        if k < 0.5:
+            s = r.choice(atoms)
+        elif k < 0.7:
+            s = r.choice(compounds)
+        else:
+            s = r.choice(atoms) + r.choice(["*", "/"]) + r.choice(atoms) + ("**" + str(r.choice([2, 3, -1, -2])) if r.random() < 0.5 else "")
+            if r.random() < 0.4:
+                s += r.choice(["*", "/"]) + r.choice(atoms)
+        try:
+            a = U(s)
+        except Exception:
+            rec.note("nf:base-rejected")
+            continue
+        if _sym_powers(c, a) in (None, {}):
+            continue          # everything cancelled (km/km)
+        form = NF_FORMS[i % len(NF_FORMS)] if r.random() < 0.5 else "unit-pow"
+        kind, p, pdesc, near = NFG.gen_exponent(r, np, c.sympy, NFG.KINDS[i % len(NFG.KINDS)] if r.random() < 0.7 else None)
+        if form != "unit-pow" and kind in ("string-decimal", "decimal", "fraction-huge-denominator", "sympy-float", "sympy-rational-huge"):
+            form = "unit-pow"         # NumPy's power does not take these exponent types for arrays: not a unit-arithmetic route
+        origin = f"nearfrac:({s})**{pdesc}" + ("" if form == "unit-pow" else " via " + form)
+        case = {"origin": origin, "base": s, "exponent": pdesc, "form": form}
+
+        def build():
+            if form == "unit-pow":
+                return a ** p, a
+            if form == "unit-pow-pow":
+                k2, p2, d2, _ = NFG.gen_exponent(r, np, c.sympy, r.choice(["decimal-float", "numpy-float32", "near-integer-float"]))
+                case["origin"] += f"**{d2}"
+                mid = a ** p2
+                return mid ** p, mid
+            if form == "quantity-pow":
+                return ((3.0 * a) ** p).units, a
+            return np.power(c.unyt.unyt_array([2.0, 3.0], a), p).units, a
+        o = sbx.guarded(build, 20.0)
+        rec.count("nf.attempts")
+        if o.outcome != "ok":
+            rec.note(f"nf:power-refused:{form}:{kind}:" + (type(o.exc).__name__ if o.outcome == "exc" else o.outcome))
+            continue
+        u, base = o.value
+        origin = case["origin"]
+        rec.count("nf")
+        rec.count("nf.kind:" + kind)
+        rec.reach("nf-kind:" + kind)
+        rec.reach("nf-form:" + form)
+        tag = "near-fraction-exponent"        # the exponent's form (kind) is part of the nf oracle's own key and of the description
+        budget = 8 + 2 * _lnsum(c, u) + _lnb(base)
+        e = power_consistency(c, rec, base, u, form, kind, case)
+        if e is not None and abs(float(e) - float(near)) > 2e-3 and form != "unit-pow-pow":
+            rec.note("nf:printed-exponent-far-from-given-exponent:" + kind)     # recorded, not judged: which rational the library picks is C05's subject
+        reread(c, rec, u, origin, budget=budget, tag=tag)
+        try:
+            ucls = expr_info(c, u)[0]
+        except Exception:
+            continue
+        printed_text_check(c, rec, u, ucls, extra, origin, budget, tag=tag)
+        if i % 4 == 0:
+            persist(c, rec, u, origin, [PERSIST_ROUTES[(i // 4 + j) % len(PERSIST_ROUTES)] for j in range(2)], budget, tag=tag)
+        # ---- further arithmetic on the result
+        cur, b, beyond = u, budget, False
+        for step in range(r.randint(1, 2)):
+            o = sbx.guarded(lambda: nf_follow(c, rec, r, base, cur, e if step == 0 else None, atoms, U, reg, b), 20.0)
+            if o.outcome != "ok" or o.value is None:
+                break
+            cur, fname, b = o.value
+            b += 4 + 2 * _lnsum(c, cur)
+            rec.count("nf.followup")
+            if fname.endswith(">1e6"):
+                beyond = True
+                rec.count("simplify-of-exponent-denominator>1e6")
+            # the step's name is in the description and the reached catalogue, not in the key - except the one mechanism class (see ASSUMPTIONS)
+            ftag = ("!" + BEYOND) if beyond else tag + "+further-arithmetic"
+            reread(c, rec, cur, origin + " then " + fname, budget=b, tag=ftag)
+            try:
+                printed_text_check(c, rec, cur, expr_info(c, cur)[0], extra, origin + " then " + fname, b, tag=ftag)
+            except Exception:
+                pass
+        last = origin
+    rec.sample({"nearfrac_example": last, "pool": pool_kind})
 
 
 EMBED = [("bare", "{}"), ("times-unit", "{}*m"), ("unit-times-paren", "kg*({})"), ("as-exponent", "m**({})"), ("in-sqrt", "sqrt({})"), ("denominator", "s/({})")]
@@ -1268,6 +1560,8 @@ def worker(batch, rec):
             do_fuzz(c, rec, payload)
         elif kind == "custom":
             do_custom_names(c, rec, payload)
+        elif kind == "nearfrac":
+            do_nearfrac(c, rec, payload)
     finally:
         try:
             import shutil
@@ -1301,6 +1595,10 @@ def batches(tier, seed):
     for i in range(nf):
         b.append(("fuzz/%d" % i, ("fuzz", (seed, i, per_f))))
     b.append(("custom-names", ("custom", None)))
+    nn, per_n = (8, 600) if quick else (32, 2000)
+    for i in range(nn):
+        pk = ["fixed", "all", "fixed", "custom"][i % 4]
+        b.append(("nearfrac/%d" % i, ("nearfrac", (seed, i, per_n, pk))))
     return b
 
 
@@ -1316,12 +1614,18 @@ def extra(tier, seed, results):
            "rr.str": counters.get("rr.str", 0), "rr.repr": counters.get("rr.repr", 0), "sp": counters.get("sp", 0), "gr": counters.get("gr", 0),
            "txt": counters.get("txt", 0), "per": counters.get("per", 0), "arith-units": counters.get("arith-units", 0),
            "fuzz": counters.get("tot.fuzz", 0), "hostile": counters.get("tot.hostile", 0), "isolated": counters.get("iso.strings", 0),
-           "isolated-completed": counters.get("iso.completed", 0), "hangs": counters.get("tot.hang", 0)}
+           "isolated-completed": counters.get("iso.completed", 0), "hangs": counters.get("tot.hang", 0),
+           "nf": counters.get("nf", 0), "nf.followup": counters.get("nf.followup", 0), "nf.attempts": counters.get("nf.attempts", 0)}
+    from vf.gen import c20_nearfrac as NFG
+    for k in NFG.KINDS:
+        sub["nf.kind:" + k] = counters.get("nf.kind:" + k, 0)
     ok_batches = [bid for bid, r in results if r.get("status") == "ok"]
-    zero = [k for k in ("tot", "sbx", "sbx.vocab-calls", "rr.str", "rr.repr", "sp", "gr", "txt", "per", "arith-units", "fuzz", "hostile") if not sub[k]]
+    zero = [k for k in ("tot", "sbx", "sbx.vocab-calls", "rr.str", "rr.repr", "sp", "gr", "txt", "per", "arith-units", "fuzz", "hostile", "nf", "nf.followup") if not sub[k]]
+    zero += [k for k in sub if k.startswith("nf.kind:") and not sub[k]]       # every exponent form of the class must have produced judged powers
     if zero and ok_batches:
         raise core.Inconclusive("deciding-sub-monitor-saw-nothing:" + ",".join(zero))
-    catalogue = (["entry:" + e for e in ENTRY_POINTS] + ["persist:" + p for p in PERSIST_ROUTES] + ["arith:" + a for a in ARITH_OPS])
+    catalogue = (["entry:" + e for e in ENTRY_POINTS] + ["persist:" + p for p in PERSIST_ROUTES] + ["arith:" + a for a in ARITH_OPS] + ["nf-kind:" + k for k in NFG.KINDS]
+                 + ["nf-form:" + f for f in NF_FORMS] + ["nf-follow:" + f for f in NF_FOLLOW])
     unreached = [x for x in catalogue if x not in reached]
     unreached.append("persist:HDF5 attributes (h5py is not installed: write_hdf5/from_hdf5 cannot run)")
     return {"sub_monitor_evaluations": sub, "unreached": unreached,
